@@ -1,5 +1,8 @@
 """A fixed corpus of values (constructible by index in a fresh interpreter) for the purity checks of C19."""
 import collections
+import os
+import sys
+import time
 import datetime
 import decimal
 import enum
@@ -46,4 +49,7 @@ def corpus():
         uuid.UUID(int=5), Color.RED, Point(1, [2]), functools.partial(int, '10', base=2), ValueError('bad', 2),
         pathlib.PurePosixPath('/a/b/' + 'c' * 90), Unregistered(), [Unregistered()],
         decimal.Decimal('1.5'), fractions.Fraction(1, 3), range(3), int, len, type(None),
+        # C struct sequences: field names are read off repr(value), which cannot be parsed when an element's repr is not an expression (F19)
+        time.struct_time((2020, 1, 2, 3, 4, 5, 3, 2, -1)), time.struct_time((Unregistered(), 1, 2, 3, 4, 5, 3, 2, -1)),
+        [time.struct_time((1999, 12, 31, 23, 59, 59, 4, 365, 0))], os.terminal_size((80, 24)), sys.float_info,
     ]
